@@ -598,6 +598,29 @@ def abort_sites(cfg):
     return out
 
 
+def bounded_by_bool_cast(cfg, ops):
+    """Value-range fact used to discharge Overflow(Add/Sub/Mul): one operand is `<bool> as <int>` (0 or 1, possibly
+    through copies) and the other a constant of magnitude < 64, so the result fits every integer type."""
+    def from_bool(op, depth=0):
+        p = op_place(op)
+        if p is None or not isinstance(p, int) or depth > 6:
+            return False
+        ds = cfg.defs().get(p, [])
+        if len(ds) != 1 or ds[0][0] != "stmt":
+            return False
+        s = ds[0][3]
+        if s.get("r") == "Cast" and s.get("from") == "bool":
+            return True
+        if s.get("r") == "Use":
+            return from_bool(s["x"], depth + 1)
+        return False
+
+    def small_const(op):
+        k = op_const(op)
+        return k is not None and isinstance(k.get("v"), int) and not isinstance(k.get("v"), bool) and abs(k["v"]) < 64
+    return len(ops) == 2 and ((from_bool(ops[0]) and small_const(ops[1])) or (from_bool(ops[1]) and small_const(ops[0])))
+
+
 def known_nonnegative(cfg, local, _depth=0):
     """Value-range fact used to discharge OverflowNeg: the local is the result of
     `i64::try_from(<u64>).unwrap_or(<non-negative const>)` (possibly through copies), hence in [0, i64::MAX]."""
